@@ -1047,6 +1047,9 @@ class PathEval:
         except (ValueError, KeyError, IndexError, ZeroDivisionError) as ex:
             if self.try_depth > 0:
                 raise _ProgExc(ex)
+            if isinstance(ex, (KeyError, IndexError)) and self._operands_known(e, s):
+                # a look-up that fails on values the sample fixes completely: the program's own exception on this path
+                raise _Leave("raise", type(ex).__name__)
             self.gap(f"{what or norm(e)[:50]}: {type(ex).__name__} {ex}")
             return GAP
         except (NameError, UnboundLocalError):
@@ -1054,6 +1057,31 @@ class PathEval:
         except Exception as ex:
             self.gap(f"{what or norm(e)[:50]}: {type(ex).__name__} {ex}")
             return GAP
+
+    def _operands_known(self, e, s: PState) -> bool:
+        """every name the expression reads holds a value without unknown parts, and it calls nothing that is followed into
+        (only subscripts, attributes of known objects, literals, arithmetic)"""
+        def known(v, d=0):
+            if isinstance(v, _Unknown):
+                return False
+            if d > 3:
+                return True
+            if isinstance(v, dict):
+                return all(known(k_, d + 1) and known(x_, d + 1) for k_, x_ in v.items())
+            if isinstance(v, (list, tuple, set, frozenset)):
+                return all(known(x_, d + 1) for x_ in v)
+            if isinstance(v, Instance):
+                return all(known(x_, d + 1) for x_ in vars(v).values())
+            return True
+        for x in ast.walk(e):
+            if isinstance(x, ast.Call):
+                return False
+            if isinstance(x, (ast.Lambda, ast.ListComp, ast.DictComp, ast.SetComp, ast.GeneratorExp, ast.Await, ast.Yield, ast.YieldFrom, ast.NamedExpr)):
+                return False
+            if isinstance(x, ast.Name) and isinstance(x.ctx, ast.Load):
+                if x.id not in s.env or not known(s.env[x.id]):
+                    return False
+        return True
 
     def test(self, e, s: PState):
         """True / False / None (not decided by the sample)"""
